@@ -3,6 +3,7 @@ package scen
 import (
 	"bytes"
 	"fmt"
+	"io"
 	"strings"
 	"sync"
 	"time"
@@ -16,6 +17,10 @@ type lockedBuf struct {
 	mu sync.Mutex
 	b  bytes.Buffer
 	pt string // when set, every Write is a scheduling point of that name: the application's writer may take its time
+	// okWrites > 0: the writer takes that many writes and fails every later one with io.ErrClosedPipe (an io.PipeWriter whose
+	// reader the application closed once it had seen what it was waiting for, a log file that was closed)
+	okWrites int
+	writes   int
 }
 
 func (l *lockedBuf) Write(p []byte) (int, error) {
@@ -26,6 +31,10 @@ func (l *lockedBuf) Write(p []byte) (int, error) {
 	}
 	l.mu.Lock()
 	defer l.mu.Unlock()
+	l.writes++
+	if l.okWrites > 0 && l.writes > l.okWrites {
+		return 0, io.ErrClosedPipe
+	}
 	return l.b.Write(p)
 }
 func (l *lockedBuf) Bytes() []byte {
@@ -92,6 +101,12 @@ func init() {
 			so, se := &lockedBuf{pt: "SyncStdout.Write"}, &lockedBuf{pt: "SyncStderr.Write"}
 			x.Put("so", so)
 			x.Put("se", se)
+			switch p["closed"] { // that stream's sync writer is closed by the application after its first write
+			case "out":
+				so.okWrites = 1
+			case "err":
+				se.okWrites = 1
+			}
 			lo := liveOpts{proto: p["proto"], pStdout: outR, pStderr: errR, syncOut: so, syncErr: se}
 			switch p["only"] { // the host configured just one of the two sync writers
 			case "out":
@@ -159,7 +174,7 @@ func init() {
 				}
 			})
 			// wait (virtual time) until everything expected has arrived, or 10 s
-			for i := 0; i < 400 && ((p["only"] != "err" && so.Len() < len(outAll)) || (p["only"] != "out" && se.Len() < len(errAll))); i++ {
+			for i := 0; i < 400 && ((p["only"] != "err" && p["closed"] != "out" && so.Len() < len(outAll)) || (p["only"] != "out" && p["closed"] != "err" && se.Len() < len(errAll))); i++ {
 				x.Pause(100 * time.Millisecond)
 			}
 			<-rpcDone
@@ -198,10 +213,13 @@ func init() {
 				}
 				x.Fail(class, "%s: received %d bytes, plugin wrote %d; first difference at offset %d [%s]", name, len(got), len(want), n, desc)
 			}
-			if p["only"] != "err" {
+			if p["closed"] != "" {
+				desc += " Sync" + map[string]string{"out": "Stdout", "err": "Stderr"}[p["closed"]] + "-writer-closed-after-its-first-write"
+			}
+			if p["only"] != "err" && p["closed"] != "out" {
 				cmp("SyncStdout", x.Data["gotOut"].([]byte), x.Data["outAll"].([]byte))
 			}
-			if p["only"] != "out" {
+			if p["only"] != "out" && p["closed"] != "err" {
 				cmp("SyncStderr", x.Data["gotErr"].([]byte), x.Data["errAll"].([]byte))
 			}
 			if e, ok := x.Data["rpcerr"]; ok && x.TimeDevs == 0 {
@@ -261,6 +279,13 @@ func init() {
 						for _, oe := range [][2]string{{"1", "1"}, {"1025,1", "4097"}, {"10000", "1,1024"}, {"70000", "70000"}, {"4096", ""}, {"", "4096"}, {"1,@3000,1025", "1,@3000,1025"}} {
 							out = append(out, explore.Params{"proto": proto, "out": oe[0], "err": oe[1], "attach": at, "only": only})
 						}
+					}
+				}
+				// the application closes one of its sync writers after the first write it received; the other stream goes on
+				for _, cl := range []string{"out", "err"} {
+					for _, at := range []string{"before", "after"} {
+						out = append(out, explore.Params{"proto": proto, "out": "3,@1000,5,@2000,7,@1000,9", "err": "3,@1000,5,@2000,7,@1000,9", "attach": at, "closed": cl})
+						out = append(out, explore.Params{"proto": proto, "out": "1025,@500,1,@500,4097", "err": "1,@700,1024,@700,10000", "attach": at, "closed": cl})
 					}
 				}
 				late := []string{"1", "1024", "1025,1", "10000", "0,1", "40"}
